@@ -62,6 +62,10 @@ package pkcs7
 //@   bind after call CheckSignature#1: SIG := ite(isnil(result), 1, 0)
 //@   bind after call CheckSignatureWithDigest#1: SIGD := ite(isnil(result), 1, 0)
 //@   assert before call Write#1: objof(arg0) == CONTENT && offof(arg0) == CONTOFF && len(arg0) == CONTLEN
+//@   bind after call Sum#1: HOBJ := objof(result)
+//@   assert before call ConstantTimeCompare#1: sameslice(arg0, digest)
+//@   assert before call ConstantTimeCompare#1: isDigest ==> objof(arg1) == CONTENT && offof(arg1) == CONTOFF && len(arg1) == CONTLEN
+//@   assert before call ConstantTimeCompare#1: !isDigest ==> objof(arg1) == HOBJ
 //@   assert before call verifyCertChain#1: objof(arg0) == EE && EE != 0
 //@   assert before call CheckSignature#1: objof(arg0) == EE && EE != 0 && sameslice(arg3, signer.EncryptedDigest)
 //@   assert before call CheckSignature#1: NATTR > 0 ==> objof(arg2) == MOBJ && offof(arg2) == MOFF && len(arg2) == MLEN
@@ -79,6 +83,8 @@ package pkcs7
 //@   let NS := len(p7.Signers)
 //@   ensures isnil(err) ==> NS > 0
 //@   loop 1 invariant -1 <= rangeindex && rangeindex < NS
+//@   bind after call verifySignature#1: LASTOK := ite(isnil(result), 1, 0)
+//@   loop 1 invariant rangeindex >= 0 ==> LASTOK == 1
 //@   loop 1 decreases NS - rangeindex
 //@   assert before call verifySignature#1: 0 <= rangeindex + 1 && rangeindex + 1 < NS && sameobj(arg0, p7)
 //@   assert at return: defined(rangeindex) && isnil(err) ==> rangeindex + 1 == NS
